@@ -87,4 +87,17 @@ PROPS["C08"] = {
     "design": "DESIGN.md §3 C08",
 }
 
+PROPS["C20"] = {
+    "text": "Theorems over the request handler as a pure function of (endpoint, status, decoded bytes), for all inputs: it is total "
+            "and answers only 200/503/404 or aborts that connection; status iff the parsed request line is GET <endpoint>; 404 iff "
+            "parsed and different; abort iff unparsable; parse soundness and acceptance of every well-formed request; the outcome "
+            "class never depends on the status. Tie: ~800 byte strings per quick run over real loopback sockets against a real "
+            "running Worker, before and after an injected consumer failure, plus port-lifetime checks (normal return, cancelled run).",
+    "note": "Sockets, asyncio transports and the kernel are runtime: that an exception in data_received closes only that transport "
+            "is observed, not proved; sends larger than 16 kB or split across packets are checked by the oracle and on their "
+            "first packet only; real time (no virtual clock) in this check.",
+    "technique": "Coq proof over a pure handler model (lists of code points) + differential correspondence over real sockets",
+    "design": "DESIGN.md §3 C20",
+}
+
 PENDING_REASON = "machinery for this property is not built yet in this revision of /verif (construction order: DESIGN.md §5)"
